@@ -4,3 +4,4 @@ import RFV.Model.Avx
 import RFV.Model.Validate
 import RFV.Model.Sem
 import RFV.Model.Fp
+import RFV.Model.Cache
